@@ -43,9 +43,10 @@ CONF = {
     "C15": dict(level="exploration", workers=16, quick=dict(cases=3000, size=80), thorough=dict(cases=90000, size=100)),
     "C16P": dict(level="exploration", workers=16, quick=dict(cases=4000, size=60), thorough=dict(cases=150000, size=100),
                  fuzz=[dict(name="fz_chunk", quick_runs=150000, thorough_runs=5000000, max_len=400)]),
+    "C16S": dict(level="exploration", workers=16, quick=dict(cases=500, size=50), thorough=dict(cases=15000, size=100)),
     "C16H": dict(level="exploration", workers=16, quick=dict(cases=600, size=50), thorough=dict(cases=12000, size=100)),
     "C16": dict(fuzz=[dict(name="fz_chunk", quick_runs=150000, thorough_runs=5000000, max_len=400)],
-                also=dict(quick=[("C16H", 600), ("C16P", 4000)], thorough=[("C16H", 12000), ("C16P", 150000)]), level="exploration", workers=16, quick=dict(cases=900, size=50), thorough=dict(cases=20000, size=100)),
+                also=dict(quick=[("C16H", 600), ("C16P", 4000), ("C16S", 500)], thorough=[("C16H", 12000), ("C16P", 150000), ("C16S", 15000)]), level="exploration", workers=16, quick=dict(cases=900, size=50), thorough=dict(cases=20000, size=100)),
     "C17": dict(level="exploration", workers=16, quick=dict(cases=8000, size=100), thorough=dict(cases=150000, size=150),
                 fuzz=[]),
     "C18Q": dict(level="exploration", workers=16, quick=dict(cases=1500, size=60), thorough=dict(cases=30000, size=100)),
